@@ -5,6 +5,8 @@ CONSTANTS
   FragSNs = {2}
   MaxSteps = 4
   Reliable = FALSE
+  HostileClasses = {}
+  HostileMatched = FALSE
   GenK = 0
 CONSTRAINT Bound
 VIEW View
